@@ -794,7 +794,15 @@ func roundTripSection(x *h.X) {
 	t := tally{}
 	defer t.flush(x)
 
-	A, err := buildKey(alg, 0, mode, 0x01020304, "kid-A")
+	// key ids with leading zero bytes: the key-id-derived kid is the FIXED 4-byte big-endian id, also through JWK
+	// export / import (a minimal-length integer encoding would strip them)
+	idsA := []uint32{0x01020304, 0x0000beef}
+	if x.Thorough() {
+		idsA = []uint32{0x01020304, 0x0000beef, 0, 0x00ffffff, 0xffffffff}
+	}
+	idA := h.Pick(x, "key-id", idsA)
+	cfg += fmt.Sprintf(" idA=%#x", idA)
+	A, err := buildKey(alg, 0, mode, idA, "kid-A")
 	if err != nil {
 		x.Fail("construct", "%s: key A: %v", cfg, err)
 		return
